@@ -11,7 +11,11 @@ package main
 
 import (
 	"bufio"
+	"crypto/rand"
+	"crypto/rsa"
+	"crypto/x509"
 	"encoding/json"
+	"encoding/pem"
 	"fmt"
 	"io"
 	"log"
@@ -29,6 +33,7 @@ import (
 	"time"
 
 	"github.com/dlintw/goconf"
+	"github.com/gorilla/mux"
 
 	signaling "github.com/strukturag/nextcloud-spreed-signaling"
 )
@@ -68,6 +73,167 @@ type c16pOp struct {
 	Peer     string   `json:"peer,omitempty"`
 	XR       []string `json:"xr,omitempty"`
 	XFF      []string `json:"xff,omitempty"`
+	// hist: a proxy started with Hist[0] and reloaded (ProxyServer.Reload) with Hist[1:] in turn;
+	// the request is made after the last reload.  The op carries its whole history.
+	Hist []c16pConf `json:"hist,omitempty"`
+}
+
+// the two options of a configuration file: absent (nil) or present with a text
+type c16pConf struct {
+	Trusted *string `json:"t,omitempty"` // [app] trustedproxies
+	Allow   *string `json:"a,omitempty"` // [stats] allowed_ips
+}
+
+func c16pOptText(o *string) string {
+	if o == nil {
+		return ""
+	}
+	return *o
+}
+
+func c16pOptEq(a, b *string) bool { return (a == nil) == (b == nil) && c16pOptText(a) == c16pOptText(b) }
+
+func c16pCoqOpt(o *string) string {
+	if o == nil {
+		return "None"
+	}
+	return "(Some " + c16pCoqStr(*o) + ")"
+}
+
+func c16pSetOption(config *goconf.ConfigFile, section, option string, v *string) {
+	config.RemoveOption(section, option)
+	if v != nil {
+		config.AddOption(section, option, *v)
+	}
+}
+
+// the proxy of the history ops
+type c16pHist struct {
+	t        *testing.T
+	tokenOpt [2]string // the [tokens] entry every configuration file of a proxy needs
+	proxy    *ProxyServer
+	handler  http.Handler
+	config   *goconf.ConfigFile
+	applied  []c16pConf
+	starts   int
+	reloads  int
+}
+
+// server: a proxy that has gone through exactly this history; the proxy of the previous op is
+// used again when its history is a prefix of the wanted one
+func (h *c16pHist) server(hist []c16pConf) http.Handler {
+	reuse := h.proxy != nil && len(h.applied) <= len(hist)
+	if reuse {
+		for i, c := range h.applied {
+			if !c16pOptEq(c.Trusted, hist[i].Trusted) || !c16pOptEq(c.Allow, hist[i].Allow) {
+				reuse = false
+				break
+			}
+		}
+	}
+	if !reuse {
+		if h.proxy != nil {
+			h.proxy.Stop()
+		}
+		config := goconf.NewConfigFile()
+		config.AddOption("tokens", h.tokenOpt[0], h.tokenOpt[1])
+		c16pSetOption(config, "app", "trustedproxies", hist[0].Trusted)
+		c16pSetOption(config, "stats", "allowed_ips", hist[0].Allow)
+		r := mux.NewRouter()
+		proxy, err := NewProxyServer(r, "0.0", config)
+		if err != nil {
+			h.t.Fatalf("NewProxyServer: %v", err)
+		}
+		proxy.mcu = &TestMCU{t: h.t}
+		h.t.Cleanup(proxy.Stop)
+		h.proxy, h.handler, h.config = proxy, r, config
+		h.applied = []c16pConf{hist[0]}
+		h.starts++
+	}
+	for _, c := range hist[len(h.applied):] {
+		c16pSetOption(h.config, "app", "trustedproxies", c.Trusted)
+		c16pSetOption(h.config, "stats", "allowed_ips", c.Allow)
+		h.proxy.Reload(h.config) // proxy/main.go on SIGHUP
+		h.applied = append(h.applied, c)
+		h.reloads++
+	}
+	return h.handler
+}
+
+func c16pGenConfText(r *c16pRng, pool []string, allowRefused bool) *string {
+	var v string
+	switch k := r.intn(100); {
+	case k < 30:
+		return nil
+	case k < 40:
+		v = c16pPick(r, []string{"", "", " ", ",", " , "})
+	case k < 48 && allowRefused:
+		v = c16pPick(r, []string{"10.0.0.1/33", "nonsense", "10.0.0.1, nonsense", "fe80::1%eth0", "[::1]", "1.2.3.4:80"})
+	default:
+		v = c16pPick(r, pool)
+	}
+	return &v
+}
+
+func c16pGenHist(r *c16pRng, id int, sink *c16pSink) *c16pCase {
+	c := &c16pCase{Id: id}
+	nreload := c16pPick(r, []int{1, 1, 2, 2, 3, 4})
+	var hist []c16pConf
+	for i := 0; i <= nreload; i++ {
+		hist = append(hist, c16pConf{Trusted: c16pGenConfText(r, c16pTrusted, i > 0), Allow: c16pGenConfText(r, c16pAllow, i > 0)})
+	}
+	if r.chance(50) {
+		// something was configured and the option is then taken out
+		i := 1 + r.intn(nreload)
+		if r.chance(70) {
+			if strings.TrimSpace(c16pOptText(hist[i-1].Allow)) == "" {
+				v := c16pPick(r, c16pAllow[2:])
+				hist[i-1].Allow = &v
+			}
+			hist[i].Allow = nil
+		} else {
+			if strings.TrimSpace(c16pOptText(hist[i-1].Trusted)) == "" {
+				v := c16pPick(r, c16pTrusted[2:])
+				hist[i-1].Trusted = &v
+			}
+			hist[i].Trusted = nil
+		}
+	}
+	nops := 2 + r.intn(3)
+	for i := 0; i < nops; i++ {
+		upto := len(hist)
+		if i < nops-2 {
+			upto = 1 + r.intn(len(hist))
+		}
+		w := &c16pWorld{r: r, sink: sink, trusted: c16pParse("", "127.0.0.0/8,10.0.0.0/8,172.16.0.0/12,192.168.0.0/16"), allow: c16pParse("", "127.0.0.1")}
+		for _, cf := range hist[:upto] {
+			if t := c16pOptText(cf.Trusted); strings.TrimSpace(t) != "" {
+				w.trusted = append(w.trusted, c16pParse(t, "127.0.0.1")...)
+			}
+			if a := c16pOptText(cf.Allow); strings.TrimSpace(a) != "" {
+				w.allow = append(w.allow, c16pParse(a, "127.0.0.1")...)
+			}
+		}
+		o := c16pOp{K: "hist", Hist: append([]c16pConf(nil), hist[:upto]...), Endpoint: 3 + r.intn(2)}
+		if r.chance(45) {
+			text := c16pAddrIn(r, c16pPick(r, w.allow)).String()
+			if strings.Contains(text, ":") {
+				text = "[" + text + "]"
+			}
+			o.Peer = fmt.Sprintf("%s:%d", text, 1+r.intn(65535))
+		} else {
+			o.Peer = w.peer()
+			if r.chance(70) {
+				o.XR = append(o.XR, w.addr("xreal", 34))
+			}
+			if r.chance(40) {
+				o.XFF = append(o.XFF, w.hop()+", "+w.hop())
+			}
+		}
+		c.Ops = append(c.Ops, o)
+	}
+	sink.count("case_history")
+	return c
 }
 
 type c16pCase struct {
@@ -573,7 +739,47 @@ func c16pDirected() []*c16pCase {
 			{K: "socket", Endpoint: ep},
 		}})
 	}
+	// configuration histories: one change of the allow-list after start (removed, emptied, changed,
+	// refused, added), and a trusted proxy that is taken out again
+	o := func(v string) *string { return &v }
+	var none *string
+	for _, tr := range [][2]*string{{o("127.0.0.1, 10.9.9.9"), none}, {o("10.9.9.9"), none}, {o("10.9.9.9"), o("")}, {o("10.9.9.9"), o("10.1.2.3")},
+		{o("10.9.9.9"), o("10.1.2.3/33")}, {none, o("10.9.9.9")}, {none, none}} {
+		h := []c16pConf{{Allow: tr[0]}, {Allow: tr[1]}}
+		cs = append(cs, &c16pCase{Ops: []c16pOp{
+			{K: "hist", Hist: h, Endpoint: 3, Peer: "10.9.9.9:12345"}, {K: "hist", Hist: h, Endpoint: 4, Peer: "127.0.0.1:12345"},
+			{K: "hist", Hist: h, Endpoint: 3, Peer: "10.1.2.3:12345"}, {K: "hist", Hist: h[:1], Endpoint: 4, Peer: "10.9.9.9:12345"}}})
+	}
+	h3 := []c16pConf{{Trusted: o("8.8.8.8")}, {}, {Trusted: o("1.2.3.4/31")}, {Trusted: o("1.2.3.4/33")}, {Trusted: o(" ")}}
+	var hops []c16pOp
+	for n := 1; n <= len(h3); n++ {
+		for _, peer := range []string{"8.8.8.8:7", "10.0.0.5:80", "1.2.3.5:9"} {
+			hops = append(hops, c16pOp{K: "hist", Hist: h3[:n], Endpoint: 3 + n%2, Peer: peer, XR: []string{"127.0.0.1"}})
+		}
+	}
+	cs = append(cs, &c16pCase{Ops: hops})
 	return cs
+}
+
+// a public key file for the [tokens] section of the history proxies
+func c16pWritePubKey(t *testing.T) string {
+	key, err := rsa.GenerateKey(rand.Reader, KeypairSizeForTest)
+	if err != nil {
+		t.Fatal(err)
+	}
+	pubData, err := x509.MarshalPKIXPublicKey(&key.PublicKey)
+	if err != nil {
+		t.Fatal(err)
+	}
+	f, err := os.CreateTemp(t.TempDir(), "pubkey*.pem")
+	if err != nil {
+		t.Fatal(err)
+	}
+	defer f.Close()
+	if err := pem.Encode(f, &pem.Block{Type: "RSA PUBLIC KEY", Bytes: pubData}); err != nil {
+		t.Fatal(err)
+	}
+	return f.Name()
 }
 
 func TestVerifC16Proxy(t *testing.T) {
@@ -614,6 +820,7 @@ func TestVerifC16Proxy(t *testing.T) {
 		s.handler.ServeHTTP(w, req)
 	}))
 	t.Cleanup(s.front.Close)
+	hist := &c16pHist{t: t, tokenOpt: [2]string{TokenIdForTest, c16pWritePubKey(t)}}
 
 	var cases []*c16pCase
 	if replay != "" {
@@ -643,6 +850,10 @@ func TestVerifC16Proxy(t *testing.T) {
 		for i := 0; i < n; i++ {
 			cases = append(cases, c16pGen(c16pNewRng(seed, uint64(i)), base+i, sink))
 		}
+		base = len(cases)
+		for i := 0; i < n/10; i++ {
+			cases = append(cases, c16pGenHist(c16pNewRng(seed, uint64(1000000+i)), base+i, sink))
+		}
 	}
 
 	for _, c := range cases {
@@ -651,6 +862,54 @@ func TestVerifC16Proxy(t *testing.T) {
 		var trace, outs []string
 		nontrivial := false
 		for _, o := range c.Ops {
+			if o.K == "hist" {
+				if len(o.Hist) == 0 {
+					continue
+				}
+				for _, cf := range o.Hist {
+					tb.seeConfig(c16pOptText(cf.Trusted))
+					tb.seeConfig(c16pOptText(cf.Allow))
+				}
+				// a proxy cannot be started with a text that is refused
+				refused := false
+				for _, cfg := range []string{c16pOptText(o.Hist[0].Trusted), c16pOptText(o.Hist[0].Allow)} {
+					if _, err := signaling.ParseAllowedIps(cfg); err != nil && !refused {
+						sink.count("config_rejected")
+						trace = append(trace, fmt.Sprintf("(OCfgParse %s, VReject)", c16pCoqStr(cfg)))
+						outs = append(outs, "rejected")
+						refused = true
+					}
+				}
+				if refused {
+					continue
+				}
+				sink.count("op_hist")
+				sink.count(fmt.Sprintf("hist_reloads_%d", len(o.Hist)-1))
+				if last := o.Hist[len(o.Hist)-1]; len(o.Hist) > 1 && last.Allow == nil {
+					sink.count("hist_last_reload_allow_removed")
+				}
+				handler := hist.server(o.Hist)
+				ep := o.Endpoint
+				if ep != 3 && ep != 4 {
+					ep = 3
+				}
+				req := httptest.NewRequest("GET", c16pPaths[ep], nil)
+				req.RemoteAddr = o.Peer
+				req.Header = c16pHeader(o.XR, o.XFF)
+				rec := httptest.NewRecorder()
+				handler.ServeHTTP(rec, req)
+				tb.seeRequest(o.Peer, o.XR, o.XFF)
+				nontrivial = true
+				var rl []string
+				for _, cf := range o.Hist[1:] {
+					rl = append(rl, fmt.Sprintf("(%s, %s)", c16pCoqOpt(cf.Trusted), c16pCoqOpt(cf.Allow)))
+				}
+				sink.count(fmt.Sprintf("hist_status_%d", rec.Code))
+				trace = append(trace, fmt.Sprintf("(OHistStats %d (%s, %s) %s %s %s %s, VStatus %d)", ep, c16pCoqOpt(o.Hist[0].Trusted), c16pCoqOpt(o.Hist[0].Allow),
+					c16pCoqList(rl), c16pCoqStr(o.Peer), c16pCoqStrs(o.XR), c16pCoqStrs(o.XFF), rec.Code))
+				outs = append(outs, fmt.Sprintf("status:%d", rec.Code))
+				continue
+			}
 			// configurations go to the model as the texts they are; one the real
 			// ParseAllowedIps refuses becomes "this text is refused"
 			tb.seeConfig(o.Trusted)
